@@ -35,6 +35,8 @@ def timed_calls(draw, nmax, cfg, bdur, names, explicit_keys=True, cancels=False,
         if explicit_keys and not unique and draw(st.integers(0, 3)) == 0:
             key = draw(st.sampled_from(['K', 'a', '1']))
         c = {'at': t, 'name': name, 'key': key, 'cancel': None, 'timeout': None}
+        if draw(st.integers(0, 5)) == 0:
+            c['hops'] = draw(st.integers(1, 3))       # position inside the instant, in loop iterations
         if cancels:
             z = draw(st.integers(0, 9))
             if z < 3:
